@@ -16,9 +16,9 @@ RULE = (
     'of plain numpy arrays carrying the stated semantics (fresh results, aliases identical, views share one buffer, copies independent, abs = max modulus); '
     'no fault is injected in this part. Non-trivial = at least two blocks or two legs (runs) / more than two operations after the definitions (histories); distinct = distinct digest.'
 )
-COMPONENTS_REAL = ['mesh, MultiComponentMesh (imex_mesh, comp2_mesh, MeshDAE), particles.position, acceleration', 'controller_nonMPI.run/restart_block', 'Step.init_step', 'sweepers generic_implicit/imex_1st_order/explicit/Runge-Kutta (compute_end_point)', 'LogSolution, LogSolutionAfterIteration', 'BaseTransfer']
+COMPONENTS_REAL = ['mesh, MultiComponentMesh (imex_mesh, comp2_mesh, MeshDAE), particles.position, acceleration, particles and fields containers', 'controller_nonMPI.run/restart_block', 'Step.init_step', 'sweepers generic_implicit/imex_1st_order/explicit/Runge-Kutta (compute_end_point)', 'LogSolution, LogSolutionAfterIteration', 'BaseTransfer']
 COMPONENTS_STUB = ['none']
-ASSUMPTIONS = ['data-type clause: fault-free operation histories against a reference model (the weakest form of the technique); cupy/petsc/fenics/firedrake types and the particles/fields containers themselves are not driven',
+ASSUMPTIONS = ['data-type clause: fault-free operation histories against a reference model (the weakest form of the technique); cupy/petsc/fenics/firedrake types are not driven; charge and mass of particles are compared but never written',
                'aliasing alone is not reported, only observable change of bytes', 'MPI buffer clause: C08']
 PROBES = ['augmented_assignment_on_aliased_name', 'augmented_assignment_on_object_with_base', 'write_through_component_view', 'copy_construct', 'logged_arrays_checked', 'continuation_leg_on_same_controller', 'restart_at_later_slot', 'inplace_fault_on_initial_value', 'dae_inplace_sweeper']
 HOOKS = ['LogSolution', 'LogSolutionAfterIteration']
